@@ -33,7 +33,7 @@ Step ==
             LET k == e.l IN
             IF ~InSeq(asked[k], a) THEN Fail("C09.acquired_without_request")
             ELSE IF holder[k] = a
-                 THEN /\ asked' = [asked EXCEPT ![k] = RemoveLast(@, a)]
+                 THEN /\ asked' = [asked EXCEPT ![k] = DropLast(@, a)]
                       /\ depth' = [depth EXCEPT ![k] = @ + 1] /\ UNCHANGED <<holder, bad>>
             ELSE IF holder[k] # 0 THEN Fail("C09.two_holders")
             ELSE IF Head(asked[k]) # a THEN Fail("C09.grant_order")
@@ -42,7 +42,7 @@ Step ==
                  /\ depth' = [depth EXCEPT ![k] = 1] /\ UNCHANGED bad
        [] e.e \in {"u", "x"} /\ op = "enter" ->
             IF ~InSeq(asked[e.l], a) THEN Fail("C09.abort_without_request")
-            ELSE asked' = [asked EXCEPT ![e.l] = RemoveLast(@, a)] /\ UNCHANGED <<holder, depth, bad>>
+            ELSE asked' = [asked EXCEPT ![e.l] = DropLast(@, a)] /\ UNCHANGED <<holder, depth, bad>>
        [] e.e = "b" /\ op = "leave" /\ F(e, "blk", "") = "lock" -> Release(e.id, a)
        [] e.e = "u" /\ op = "body" /\ F(e, "blk", "") = "lock" -> Release(e.id, a)
        [] e.e = "p" /\ op = "avail" ->
